@@ -59,8 +59,11 @@ func (q *MultiOpQueryer) Subscribe(req *requests.Request, closeCh <-chan struct{
 				recover()
 			}()
 			conn.Close()
-			// indicate that it's done
-			resCh <- nil
+			// indicate that it's done, unless nobody listens any more
+			select {
+			case resCh <- nil:
+			case <-closeCh:
+			}
 		}()
 
 		bInitMsg, err := json.Marshal(requests.ClientSubMsg{
@@ -108,8 +111,12 @@ func (q *MultiOpQueryer) Subscribe(req *requests.Request, closeCh <-chan struct{
 				if innerErr := json.Unmarshal(msg, &serverErrorResp); innerErr != nil {
 					return
 				}
-				resCh <- &requests.Response{
+				select {
+				case resCh <- &requests.Response{
 					Errors: serverErrorResp.Payload,
+				}:
+				case <-closeCh:
+					return
 				}
 				continue
 			}
@@ -121,7 +128,11 @@ func (q *MultiOpQueryer) Subscribe(req *requests.Request, closeCh <-chan struct{
 				requests.SubError:
 				return
 			case requests.SubData:
-				resCh <- serverResp.Payload
+				select {
+				case resCh <- serverResp.Payload:
+				case <-closeCh:
+					return
+				}
 			}
 		}
 	}()
